@@ -90,9 +90,19 @@ def gate(prop_id: str, thorough=False):
         try:
             gen = translate()
             out["generated"] = gen
-        except Exception as e:  # the translator could not read the source: the tie itself is broken
+            from .translate import DEPENDS
+
+            for fname, info in gen.items():
+                if "error" in info:
+                    if prop_id in DEPENDS.get(fname, set()):
+                        # the translator this property's theorems depend on could not read the source: the tie itself is broken
+                        out["ok"] = False
+                        out["failures"].append(f"translator of {fname} failed: {info['error']}")
+                    else:
+                        out.setdefault("notes", []).append(f"translator of {fname} failed (not used by {prop_id}): {info['error']}")
+        except Exception as e:
             out["ok"] = False
-            out["failures"].append(f"translator failed: {type(e).__name__}: {e}")
+            out["failures"].append(f"translators failed: {type(e).__name__}: {e}")
             gen = {}
         rc, log = _run(["lake", "build", "BartiqModel", "Generated", "driver"])
         if rc != 0:
